@@ -832,10 +832,10 @@ def run(ctx):
         ex = list(exhaustive_cases(facts, 3, ['S', 'B:rr', 'B:nrr'], (0, 1), thin=3))
         evaluate(ctx, ex, res, 'exhaustive_3_sends_every_3rd')
     # (c) seeded structured generator + hostile stream
-    ngen = (8000, 40000, 300000)[depth()]
+    ngen = (8000, 25000, 300000)[depth()]
     gen = [c for c in (random_case(rng, facts) for _ in range(ngen)) if usable(c)]
     evaluate(ctx, gen, res, 'generated')
-    nh = (3000, 10000, 100000)[depth()]
+    nh = (3000, 6000, 100000)[depth()]
     hostile = [c for c in (random_case(rng, facts, hostile=True) for _ in range(nh)) if usable(c)]
     evaluate(ctx, hostile, res, 'hostile')
     for c in gen[:2] + hostile[:1]:
